@@ -55,7 +55,7 @@ LayoutTag(l) == CASE l = <<"a", "b">> -> "flat" [] l = <<"a", "pc">> -> "child" 
 CONSTANTS Universes,    \* subset of {"obj", "data"}
           Negatives,    \* TRUE: also emit projects with one seeded fault
           LayoutSel,    \* subset of {"flat", "child", "nested-siblings", "cousins"} (LayoutTag)
-          IStyles       \* subset of {"from", "mod", "mixed"}
+          IStyles       \* subset of {"from", "mod", "mixed", "alias"}
 
 VARIABLES u, lay, istyle, pstyle, place, neg, phase,
           cohesive,    \* TRUE: a type is placed in the module of the traits it adopts and of the class it extends
@@ -88,7 +88,10 @@ PathTo(mm, t) ==
   ELSE [levels |-> Len(fd) - cp, abs |-> FALSE, segs |-> SubSeq(tp, cp + 1, Len(tp))]
 \* the import declarations of mm: one `from` per target module listing its items, or one `import path::item` per item
 Targets(mm) == {place[n] : n \in NeededNames(mm)}
-Style(mm) == IF istyle = "mixed" THEN (IF mm = "main" THEN "from" ELSE "mod") ELSE istyle
+\* istyle "alias": `from path import X as X_x` - the module then refers to X by its local name X_x (documented form; the
+\* linker's Lookup goes through the alias, the declaration that is meant stays the same)
+Style(mm) == IF istyle = "mixed" THEN (IF mm = "main" THEN "from" ELSE "mod") ELSE IF istyle = "alias" THEN "from" ELSE istyle
+Aliased == istyle = "alias"
 Dropped(mm, n) == neg.k = "noimport" /\ neg.m = mm /\ neg.name = n
 ImportsOf(mm) ==
   {[style |-> Style(mm), t |-> t, path |-> PathTo(mm, t), names |-> {n \in NeededNames(mm) : place[n] = t /\ ~Dropped(mm, n)}] : t \in Targets(mm)}
@@ -176,7 +179,7 @@ ModRow(mm) == [mod |-> mm, file |-> ModFile[mm],
                items |-> [i \in 1..Len(Items) |-> IF place[Items[i].name] = mm THEN Items[i].name ELSE ""],
                pubs |-> {n \in ItemsIn(mm) : IsPub(n)},
                imports |-> SeqOf({[style |-> i.style, levels |-> i.path.levels, abs |-> i.path.abs, segs |-> i.path.segs,
-                                   names |-> i.names] : i \in {x \in ImportsOf(mm) : x.names # {}}})]
+                                   names |-> i.names, aliased |-> Aliased] : i \in {x \in ImportsOf(mm) : x.names # {}}})]
 Emit == Done => PrintT(<<"CASE", ToJson([u |-> u, mods |-> SeqOf({ModRow(mm) : mm \in UsedMods}), cargo |-> pstyle = "abs",
                                            cyc |-> Cyclic, neg |-> neg, breaks |-> BreaksIn, links |-> LinkOK, feats |-> Feats])>>)
 =============================================================================
